@@ -906,6 +906,7 @@ func (w *Walker) ret(x *ast.ReturnStmt, st *pstate, c *ctl) {
 	for i, r := range x.Results {
 		w.evalCalls(r, st, c)
 		vals[i] = w.canon(r, st, c)
+		st = w.litWrites(r, "return", x, st, c)
 	}
 	t.ret(st, vals)
 }
